@@ -62,6 +62,11 @@ func checkC13(r *Run) {
 			b.Tags = append(b.Tags, "foreign-go-package")
 			label += "/foreign-go-package"
 		}
+		if len(pairs)%3 == 0 {
+			// overrides keyed by string prefixes of the struct import path that are no path prefixes match nothing
+			b.DecoyPrefixOverrides = true
+			b.Tags = append(b.Tags, "decoy-prefix-overrides")
+		}
 		cases = append(cases, a, b)
 		pairs = append(pairs, rt.Pair{A: a.Name, B: b.Name, PRF: a.Name, Label: label})
 	}
